@@ -278,3 +278,93 @@ pub async fn bankruptcy(w: &mut World, m: &mut Mon, r: &mut R, lev: &Lev, g: usi
     // restore a sane collateral price for later scenarios
     scale_price_any(w, lev.ca, 1e9).await;
 }
+
+/// C09 (chain side): doctor the oracle of the collateral or the debt bank (stale by +-1 s around
+/// the boundary, wrong owner, partial verification, wide confidence, zero / negative price) and
+/// drive every valuation-consuming instruction through it; the reference model decides what must
+/// have failed.
+pub async fn oracle_faults(w: &mut World, m: &mut Mon, r: &mut R, lev: &Lev, lq: usize, g: usize) {
+    let target = if r.gen_bool(0.5) { lev.ca } else { lev.db };
+    let okey = match w.banks[target].oracle.clone() {
+        OracleD::Pyth(k) => Some((k, true)),
+        OracleD::Swb(k) => Some((k, false)),
+        _ => None,
+    };
+    let bank = w.bank(target);
+    let max_age = if bank.config.oracle_max_age == 0 { 60 } else { bank.config.oracle_max_age as i64 };
+    let now = w.chain.now();
+    let fault = r.gen_range(0..8);
+    m.r.count(&format!("C09.chain_fault/{}", fault));
+    if let Some((k, is_pyth)) = okey {
+        if is_pyth {
+            let mut p = w.pyth[&k];
+            let saved = p;
+            let mut owner = PYTH_OWNER;
+            match fault {
+                0 => p.publish_time = now - max_age - 1,
+                1 => p.publish_time = now - max_age,
+                2 => p.publish_time = now - max_age + 1,
+                3 => p.partial = 5,
+                4 => owner = solana_sdk::system_program::ID,
+                5 => {
+                    p.conf = (p.price as u64) / 3;
+                    p.ema_conf = (p.ema as u64) / 3;
+                }
+                6 => {
+                    p.price = 0;
+                    p.ema = 0;
+                    p.conf = 0;
+                    p.ema_conf = 0;
+                }
+                _ => {
+                    p.price = -p.price;
+                    p.ema = -p.ema;
+                }
+            }
+            w.set_pyth_owned(&k, p, owner);
+            drive_valuations(w, m, r, lev, lq, g).await;
+            w.set_pyth(&k, PythPx { publish_time: w.chain.now(), ..saved });
+        } else {
+            let mut p = w.swb[&k];
+            let saved = p;
+            match fault {
+                0 => p.last_update = now - max_age - 1,
+                1 | 2 => p.last_update = now - max_age,
+                3 | 4 | 5 => p.std_dev = p.value / 3,
+                6 => {
+                    p.value = 0;
+                    p.std_dev = 0
+                }
+                _ => p.value = -p.value,
+            }
+            w.set_swb(&k, p);
+            drive_valuations(w, m, r, lev, lq, g).await;
+            w.set_swb(&k, SwbPx { last_update: w.chain.now(), ..saved });
+        }
+    } else {
+        drive_valuations(w, m, r, lev, lq, g).await;
+    }
+}
+
+async fn drive_valuations(w: &mut World, m: &mut Mon, r: &mut R, lev: &Lev, lq: usize, g: usize) {
+    let auth = w.auth_of(lev.acct);
+    let ak = auth.pubkey();
+    let (a, ca, db) = (lev.acct, lev.ca, lev.db);
+    // borrow a little more, withdraw a little, liquidate, bankruptcy, receivership start
+    let i = w.ix_borrow(a, db, ak, w.ta_of(a, db), 1 + lev.borrowed / 1000);
+    let _ = w.exec(m, &[i], &[&auth]).await;
+    let i = w.ix_withdraw(a, ca, ak, w.ta_of(a, ca), 1, None);
+    let _ = w.exec(m, &[i], &[&auth]).await;
+    let lk = w.auth_of(lq);
+    let i = w.ix_liquidate(lq, a, ca, db, lk.pubkey(), 1 + r.gen_range(0..1000));
+    let _ = w.exec(m, &[i], &[&lk]).await;
+    let admin = clone_kp(&w.groups[g].admin);
+    let i = w.ix_bankruptcy(a, db, admin.pubkey());
+    let _ = w.probe(m, &[i], &[&admin]).await;
+    let ru = w.accts[lq].user;
+    let rk = w.user_kp(ru);
+    let tas = w.users[ru].tas.clone();
+    let has_record = w.shadow.contains_key(&ix::liq_record_key(&w.accts[a].key));
+    let ixs = receivership_ixs(w, a, &rk, Some((ca, 1, false)), Some((db, 2, false)), !has_record, &tas);
+    let _ = w.probe(m, &ixs, &[&rk]).await;
+}
